@@ -395,6 +395,63 @@ Section AdmissionProofs.
     - exfalso. apply Hnew. apply In_tkeys in Hk. destruct Hk as (v & Hv).
       unfold unverifiable in Hv. apply t_remove_mem in Hv. apply In_tkeys. eauto.
   Qed.
+  (* ---------------------------------------------------------------------------------------- *)
+  (* Service::find_enr (the answer to HandlerOut::WhoAreYou, the record a query's request is
+     addressed with): the table is only looked at; the record handed out is a record of the node
+     asked for; the table's record wins over whatever the running queries hold; a node known neither
+     to the table nor to the queries gets no record *)
+
+  Notation find_enr := (find_enr rec_of c).
+  Notation present_rec := (present_rec rec_of).
+
+  Lemma find_enr_mem t u id now x : In x (tmem (fst (find_enr t u id now))) -> In x (tmem t).
+  Proof. unfold Admission.find_enr. cbn [fst]. apply t_entry_look_mem. Qed.
+
+  Lemma find_enr_local t u id now : local (fst (find_enr t u id now)) = local t.
+  Proof. unfold Admission.find_enr. cbn [fst]. apply t_entry_local. Qed.
+
+  Lemma find_enr_adm t u id now : Adm t -> Adm (fst (find_enr t u id now)).
+  Proof.
+    intros H x Hx. rewrite find_enr_local. apply H. now apply find_enr_mem in Hx.
+  Qed.
+
+  (* the service never vouches for node [id] with the record of another node *)
+  Lemma find_enr_id t u id now e :
+    Adm t -> snd (find_enr t u id now) = Some e -> e_id e = id.
+  Proof.
+    intros Hadm. unfold Admission.find_enr. cbn [snd].
+    set (t1 := fst (t_entry c t id ALook now)).
+    unfold Admission.present_rec.
+    destruct (stored t1 id) as [[b v]|] eqn:Es.
+    - destruct b.
+      + intros H. apply find_some in H. destruct H as (_ & H). now apply N.eqb_eq in H.
+      + intros H. inversion H; subst e. apply stored_in in Es.
+        apply t_entry_look_mem in Es. apply Hadm in Es. destruct Es as (Hid & _). exact Hid.
+    - intros H. apply find_some in H. destruct H as (_ & H). now apply N.eqb_eq in H.
+  Qed.
+
+  (* a node that is an entry of the table is answered with the stored record, whatever (older, newer,
+     forged) records of it the running queries hold *)
+  Lemma find_enr_table_first t u id now e :
+    present_rec (fst (t_entry c t id ALook now)) id = Some e ->
+    snd (find_enr t u id now) = Some e.
+  Proof. intros H. unfold Admission.find_enr. cbn [snd]. now rewrite H. Qed.
+
+  Lemma find_enr_table_first_any_queries t u u' id now e :
+    present_rec (fst (t_entry c t id ALook now)) id = Some e ->
+    snd (find_enr t u id now) = snd (find_enr t u' id now).
+  Proof. intros H. now rewrite (find_enr_table_first t u id now e H), (find_enr_table_first t u' id now e H). Qed.
+
+  (* unknown to the table and to the queries: no record *)
+  Lemma find_enr_unknown t u id now :
+    present_rec (fst (t_entry c t id ALook now)) id = None ->
+    (forall e, In e u -> e_id e <> id) ->
+    snd (find_enr t u id now) = None.
+  Proof.
+    intros H Hu. unfold Admission.find_enr. cbn [snd]. rewrite H.
+    destruct (find (fun e => e_id e =? id) u) as [e|] eqn:Ef; [|reflexivity].
+    apply find_some in Ef. destruct Ef as (Hin & He). apply N.eqb_eq in He. now apply Hu in Hin.
+  Qed.
 End AdmissionProofs.
 
 Lemma single_stack_address_bound_v4 tf fx c t e id a inc now k :
